@@ -21,10 +21,10 @@ Proof.
     destruct (ctx_find_types_sound _ _ _ _ _ _ _ I E1) as [-> [I1 _]]. split; auto.
   - destruct (ctx_find_subclass w x c q) as [[x1 oc] t1] eqn:E1. inversion E; subst.
     destruct (ctx_find_subclass_sound _ _ _ _ _ _ _ _ I E1) as [-> [I1 _]]. split; auto.
-  - destruct (ctx_find_by_fields w x names) as [[[x1 oc] e] t1] eqn:E1. inversion E; subst.
-    destruct (ctx_find_by_fields_sound _ _ _ _ _ _ _ _ I E1 Hc Q) as [-> [-> [I1 _]]]. split; auto.
-  - destruct (ctx_local_names_match w x names c) as [[[x1 b] e] t1] eqn:E1. inversion E; subst.
-    destruct (lnm_sound _ _ _ _ _ _ _ _ _ I E1 Hc Q) as [-> [-> [I1 _]]]. split; auto.
+  - destruct (ctx_find_by_fields w x names) as [[x1 oc] t1] eqn:E1. inversion E; subst.
+    destruct (ctx_find_by_fields_sound _ _ _ _ _ _ _ I E1 Hc) as [-> [I1 _]]. split; auto.
+  - destruct (ctx_local_names_match w x names c) as [[x1 b] t1] eqn:E1. inversion E; subst.
+    destruct (lnm_sound _ _ _ _ _ _ _ _ I E1 Hc) as [-> [I1 _]]. split; auto.
   - destruct (ctx_build_rec _ false w x c pns) as [[x1 ok] t1] eqn:E1. inversion E; subst.
     destruct (build_rec_sound _ _ _ _ _ _ _ _ _ _ I E1 Hc Q) as [[I1 _] [Hf Ht]]. split; auto.
     cbn [ideal_call]. destruct ok.
@@ -38,6 +38,7 @@ Proof.
   - inversion E; subst. split; auto. constructor; cbn; try discriminate.
     + lia.
     + intros H0. lia.
+    + intros c [].
   - inversion E; subst. split; auto. unfold ctx_register.
     match goal with |- context [if ?b then _ else _] => destruct b end; [exact I|]. constructor; cbn; apply I.
 Qed.
@@ -75,11 +76,14 @@ Proof.
       exists d. split; auto. unfold find_class in *. cbn. rewrite find_class_in_app, Hf. reflexivity.
     + pose proof (inv_seen _ _ _ I). lia.
     + pose proof (inv_seen _ _ _ I). lia.
+    + intros c Hin. destruct (inv_unsup _ _ _ I _ Hin) as [d [Hf Hok]].
+      exists d. split; auto. unfold find_class in *. cbn. rewrite find_class_in_app, Hf. reflexivity.
   - split; [|lia]. constructor; cbn.
     + apply I.
     + apply I.
     + pose proof (inv_seen _ _ _ I). lia.
     + pose proof (inv_seen _ _ _ I). lia.
+    + apply I.
 Qed.
 
 Lemma hist_ext h : forall w x t0 w' x' t,
@@ -162,9 +166,10 @@ Proof.
 Qed.
 
 Lemma inv_init w canon x :
-  0 < w_modules w -> cache x = [] -> seen x = 0 -> Inv w canon x.
+  0 < w_modules w -> cache x = [] -> seen x = 0 -> unsup x = [] -> Inv w canon x.
 Proof.
-  intros Hw Hc Hs. constructor; try (rewrite Hc; cbn; discriminate); rewrite Hs; lia.
+  intros Hw Hc Hs Hu. constructor; try (rewrite Hc; cbn; discriminate); try (rewrite Hs; lia).
+  rewrite Hu. intros c [].
 Qed.
 
 (* ------------------------------------------------------------ the theorems *)
